@@ -382,6 +382,13 @@ def judge(recv, data, pre=b"", tail=b"", case=None):
         verdict = "not-allowed"
     full = pre + data + tail
     obj = build(recv)
+    if case is not None and case.get("prior_hex"):
+        # the receiver object has already decoded another valid item (a second message into the same object): what it
+        # reports afterwards is a function of the bytes decoded last, not of its history
+        try:
+            obj.decode(bytes.fromhex(case["prior_hex"]))
+        except Exception:  # noqa: BLE001 - the prior item is judged by its own case
+            pass
     _install_step_counter()
     _STEPS[0] = 4 * len(full) + 64
     hang = Failure("decode-step-bound-exceeded", case, f"more than {4 * len(full) + 64} item headers read for {len(full)} bytes", "raises or returns")
@@ -465,6 +472,8 @@ def check_case(case, ctx=None, record=True):
                 nt, classes = describe(recv, gi.from_ref(ref_item), data[:n])
             if pre:
                 classes.append("offset>0")
+            if case.get("prior_hex"):
+                classes.append("second-decode-into-the-same-object")
             classes.append("tail" if (tail or n < len(data)) else "no-tail")
             if not generated:
                 classes.append("bytes:ref-accepts-in-scope")
@@ -776,6 +785,18 @@ def variants(case):
     nl = case["nl"]
     recv2 = alts[(sum(nl) + len(case["pre"])) % len(alts)] if alts else case["recv"]
     yield {"recv": recv2, "item": case["item"], "nl": [4 - x for x in nl] + [2], "pre": case["tail"][:2], "tail": case["pre"]}
+    # the same receiver OBJECT decodes two items one after the other: the item and its emptied twin (every leaf zero-length), in
+    # both orders
+    empt = _emptied(case["item"])
+    if empt != case["item"] and allows(case["recv"], gi.to_ref(empt)):
+        yield {"recv": case["recv"], "item": empt, "nl": nl, "pre": "", "tail": case["tail"], "prior_hex": encode_case(case["item"], None).hex()}
+        yield {"recv": case["recv"], "item": case["item"], "nl": nl, "pre": "", "tail": case["tail"], "prior_hex": encode_case(empt, None).hex()}
+
+
+def _emptied(item):
+    if item["f"] == "L":
+        return {"f": "L", "v": [_emptied(x) for x in item["v"]]}
+    return {"f": item["f"], "v": []}
 
 
 def _typed_receivers(f):
